@@ -232,3 +232,61 @@ Example ex_two_step_overlap_eval :
            [fld bid []; fld bname []; fld s_typename []] 20 20 =
   (Some [(bproduct, JObj [(bid, JStr bp1); (bname, JStr bChair); (s_typename, JStr bProduct); (bprice, JNum b10)])], []).
 Proof. vm_compute. reflexivity. Qed.
+
+(* ---- the same composition through [execute] at both ends ---- *)
+Example ex_two_step_execute :
+  response_of_sres
+    (step2 U0 S2 [] [] [] None bproduct [] false bProduct [bid] [fld bprice []] [fld bname []]
+           (sres_of_response
+              (execute 20 S1 U0 Sub (query_doc [] [SField None bproduct [] [] ([fld bname []] ++ key_sels [bid])] []) None (JObj [])))
+           20) =
+  execute 20 S0 U0 Mono (query_doc [] [SField None bproduct [] [] ([fld bname []] ++ [fld bprice []])] []) None (JObj []).
+Proof. vm_compute. reflexivity. Qed.
+
+(* ---- E2 applies ---- *)
+Example exec_split_applies : forall f, (10 <= f)%nat ->
+  exec_sels S0 U0 [] [] Mono f bProduct {| ov_ent := e_p1; ov_repr := None |} ([fld bname []] ++ [fld bprice []]) [] =
+  (Some [(bname, JStr bChair); (bprice, JNum b10)], []).
+Proof.
+  intros f Hf.
+  rewrite (exec_split S0 U0 [] [] Mono 5 5 f bProduct _ [fld bname []] [fld bprice []] [] [fld bname []] [fld bprice []]);
+    try (vm_compute; reflexivity). lia.
+Qed.
+
+(* overlapping identical leaves: { id name } and { id price } *)
+Example ex_overlap_eval :
+  fst (exec_sels S0 U0 [] [] Mono 10 bProduct {| ov_ent := e_p1; ov_repr := None |}
+                 ([fld bid []; fld bname []] ++ [fld bid []; fld bprice []]) []) =
+  merge_opt (fst (exec_sels S0 U0 [] [] Mono 10 bProduct {| ov_ent := e_p1; ov_repr := None |} [fld bid []; fld bname []] []))
+            (fst (exec_sels S0 U0 [] [] Mono 10 bProduct {| ov_ent := e_p1; ov_repr := None |} [fld bid []; fld bprice []] [])).
+Proof. vm_compute. reflexivity. Qed.
+
+(* ---- side conditions that cannot be dropped (concrete counterexamples) ---- *)
+(* E3 without [sels_noent]: a selection that itself asks for [_entities] on an entity of the query
+   type is answered in subgraph mode but is invalid in monolithic mode *)
+Definition sel_ent : list selection :=
+  [SField None s_entities [(s_representations, VList [])] [] [fld s_typename []]].
+Example ex_noent_needed_sub :
+  execute 20 S2 U0 Sub (entities_doc [rep_vd] bQuery sel_ent []) None (reps [repr_of e_root []]) =
+  {| rs_data := JObj [(s_entities, JArr [JObj [(s_entities, JArr [])]])]; rs_errs := [] |}.
+Proof. vm_compute. reflexivity. Qed.
+Example ex_noent_needed_mono :
+  exec_sels S2 U0 [] [] Mono 20 bQuery {| ov_ent := e_root; ov_repr := None |} sel_ent [] =
+  (None, [XInvalid s_entities]).
+Proof. vm_compute. reflexivity. Qed.
+Example ex_noent_key_consistent : key_consistent [(bQuery, [])] U0 = true.
+Proof. vm_compute. reflexivity. Qed.
+
+(* E2: with a non-null violation in A the errors of B are NOT appended (B is not executed) *)
+Definition S0nn : schema :=
+  mk_schema [objt bQuery [fdef bproduct (TNamed bProduct)];
+             objt bProduct [fdef bid (TNonNull (TNamed bID)); fdef bname (TNonNull (TNamed bString));
+                            fdef bprice (TNonNull (TNamed bInt))]].
+Definition e_bad : entity :=
+  {| en_type := bProduct; en_key := bp1; en_fields := [(bid, FSc (JStr bp1)); (bname, FErr); (bprice, FErr)] |}.
+Example ex_split_violation :
+  exec_sels S0nn [e_bad] [] [] Mono 10 bProduct {| ov_ent := e_bad; ov_repr := None |} ([fld bname []] ++ [fld bprice []]) [] =
+  (None, [XErr [PN bname]]) /\
+  exec_sels S0nn [e_bad] [] [] Mono 10 bProduct {| ov_ent := e_bad; ov_repr := None |} [fld bprice []] [] =
+  (None, [XErr [PN bprice]]).
+Proof. split; vm_compute; reflexivity. Qed.
